@@ -178,7 +178,9 @@ def check_d3_d5(ctx) -> None:
         lp = ls[0].loops[0]
         ctx.check(lp.start.equals(Rat.const(1)) and norm(lp.node.iter.args[-1] if len(lp.node.iter.args) < 3 else lp.node.iter.args[1]) == f'len({R}.timevector.value)',
                   'D3', 'SFReservoir.Calculate/loop-range', f'{g.module.rel}:{ls[0].line}', f'history loop runs over {lp.show()}; expected [1, len(time))')
-        val = ls[0].value
+        from gxstat.inline import inline_block_locals
+        st_ = next((x for x in ast.walk(lp.node) if isinstance(x, ast.Assign) and x.value is ls[0].value), None)
+        val = inline_block_locals(ls[0].value, st_, g.module.tree) if st_ is not None else ls[0].value
 
         def hook(T, call):
             if dotted_name(call.func) in ('math.erf', 'erf'):
@@ -271,23 +273,29 @@ def check_d4(ctx) -> None:
     ctx.check(len(pt_def) == 1 and norm(pt_def[0].value) == 'model.reserv.Tresoutput.value - self.ProdTempDrop.value' and pt_def[0].lineno < s.lineno, 'D4',
               'WellBores.Calculate/produced=reservoir-drop', f'{rel}:{pt_def[0].lineno if pt_def else s.lineno}',
               'produced temperature is not reservoir temperature minus the wellbore temperature drop, computed before the trigger')
-    tiles = [x for x in ast.walk(f.node) if isinstance(x, ast.Assign) and isinstance(x.value, ast.Call) and dotted_name(x.value.func) == 'np.tile']
-    ctx.check(len(tiles) == 2, 'D4', 'WellBores.Calculate/two-series-tiled', f'{rel}:{s.lineno}', f'{len(tiles)} series are tiled; produced and reservoir temperature both restart')
-    srcs = []
-    for x in tiles:
-        a0, a1 = x.value.args[0], x.value.args[1]
-        okslice = isinstance(a0, ast.Subscript) and isinstance(a0.slice, ast.Slice) and norm(a0.slice.lower or ast.Constant(0)) in ('0',) and \
-            norm(a0.slice.upper) == 'indexfirstmaxdrawdown'
-        okcnt = norm(a1) == 'self.redrill.value + 1'
-        srcs.append(norm(a0.value) if isinstance(a0, ast.Subscript) else norm(a0))
-        ctx.check(okslice and okcnt, 'D4', f'WellBores.Calculate/tile:{srcs[-1]}', f'{rel}:{x.lineno}',
-                  f'`{norm(x)[:110]}`: each cycle must replay exactly the elements before the first below-limit index (slice [0:index]) '
-                  f'and be repeated redrill + 1 times', fact='tile(series[0:idx], redrill + 1)')
-    ctx.check(sorted(srcs) == sorted([PT, 'model.reserv.Tresoutput.value']), 'D4', 'WellBores.Calculate/tiled-series', f'{rel}:{s.lineno}', f'tiled series: {srcs}')
-    cut = [x for x in ast.walk(f.node) if isinstance(x, ast.Assign) and isinstance(x.value, ast.Subscript) and 'Repeat' in norm(x.value.value)]
-    for x in cut:
-        ctx.check(norm(x.value.slice) == f'0:len({PT})', 'D4', f'WellBores.Calculate/cut:{norm(x.targets[0])}', f'{rel}:{x.lineno}',
-                  f'tiled series is cut with [{norm(x.value.slice)}], not to the original length')
+    # the two series restart at every redrilling: compare the final expression stored into each, with named intermediates and
+    # one-expression helper functions inlined, against tile(series[0:index], redrill + 1)[0:len(produced temperature)]
+    from gxstat.inline import inline_block_locals, inline_simple_calls
+    mod_fns = {n.name: n for n in f.module.tree.body if isinstance(n, ast.FunctionDef)}
+    tiles = []
+    finals = {}
+    for series in (PT, 'model.reserv.Tresoutput.value'):
+        cands = [x for x in ast.walk(f.node) if isinstance(x, ast.Assign) and norm(x.targets[0]) == series and x.lineno > s.lineno and
+                 'indexfirstmaxdrawdown > 0' in [norm(t) for t, pol in guards_of(x, f.node) if pol]]
+        if not cands:
+            continue
+        x = cands[-1]
+        keep = ('indexfirstmaxdrawdown',)
+        e = inline_simple_calls(inline_block_locals(x.value, x, keep=keep), mod_fns)
+        finals[series] = (x, norm(e).replace(' ', ''))
+        tiles.append(x)
+    ctx.check(len(finals) == 2, 'D4', 'WellBores.Calculate/two-series-tiled', f'{rel}:{s.lineno}',
+              f'{len(finals)} series are restarted under `indexfirstmaxdrawdown > 0`; produced and reservoir temperature both restart')
+    for series, (x, txt) in finals.items():
+        want = f'np.tile({series}[0:indexfirstmaxdrawdown],self.redrill.value+1)[0:len({PT})]'
+        ctx.check(txt == want.replace(' ', ''), 'D4', f'WellBores.Calculate/tile:{series}', f'{rel}:{x.lineno}',
+                  f'after redrilling {series} is `{txt[:120]}`: each cycle must replay exactly the elements before the first below-limit index '
+                  f'(slice [0:index]), redrill + 1 times, cut to the original length', fact='tile(series[0:idx], redrill + 1)[0:len]')
     rd = [x for x in ast.walk(f.node) if isinstance(x, ast.Assign) and norm(x.targets[0]) == 'self.redrill.value']
     ctx.check(len(rd) == 1 and norm(rd[0].value) == f'int(np.floor(len({PT}) / indexfirstmaxdrawdown))', 'D4', 'WellBores.Calculate/redrill-count',
               f'{rel}:{rd[0].lineno if rd else s.lineno}', f'number of redrillings is `{norm(rd[0].value) if rd else "?"}`')
